@@ -432,7 +432,7 @@ func StripFrontMatter(s string) string {
 
 // randomKernel draws the simulator knobs of a sequential run.
 func randomData(r *Rand, tag string) DataSpec {
-	return DataSpec{Shape: Pick(r, []string{"map", "map", "map", "struct", "ptr"}), Tag: tag, Items: r.Intn(4), Flag: r.Bool(), Variant: r.Intn(6)}
+	return DataSpec{Shape: Pick(r, []string{"map", "map", "map", "map", "struct", "struct", "ptr", "ptr", "nil", "emptymap"}), Tag: tag, Items: r.Intn(4), Flag: r.Bool(), Variant: r.Intn(6)}
 }
 
 func randomEngine(r *Rand, base EngineSpec) EngineSpec {
